@@ -81,7 +81,7 @@ package runtime
 // C02: operator kernels (bit-precise int64, IEEE float64)
 
 //@ func arithOpInt
-//@ props C02
+//@ props C02 C01
 //@ intmode bv64
 //@ ensures op == ast.ADD ==> result0 == l + r && result1 == ast.Int && result2 == nil
 //@ ensures op == ast.SUB ==> result0 == l - r && result1 == ast.Int && result2 == nil
@@ -92,7 +92,7 @@ package runtime
 //@ ensures op != ast.ADD && op != ast.SUB && op != ast.MUL && op != ast.DIV && op != ast.MOD ==> result2 != nil
 
 //@ func arithOpFloat
-//@ props C02
+//@ props C02 C01
 //@ intmode bv64
 //@ ensures op == ast.ADD ==> same(result0, l + r) && result1 == ast.Float && result2 == nil
 //@ ensures op == ast.SUB ==> same(result0, l - r) && result1 == ast.Float && result2 == nil
@@ -102,19 +102,19 @@ package runtime
 //@ ensures op != ast.ADD && op != ast.SUB && op != ast.MUL && op != ast.DIV ==> result2 != nil
 
 //@ func typePromotion
-//@ props C02
+//@ props C02 C01
 //@ ensures result == ((l == ast.Float || r == ast.Float) ? ast.Float : ast.Int)
 
 //@ func cmpType
-//@ props C02
+//@ props C02 C01
 //@ ensures result == isNum(dtype)
 
 //@ func arithType
-//@ props C02
+//@ props C02 C01
 //@ ensures result == (isNum(dtype) || dtype == ast.String)
 
 //@ func assign2arithOp
-//@ props C02
+//@ props C02 C01
 //@ ensures op == ast.ADDEQ ==> result0 == ast.ADD && result1
 //@ ensures op == ast.SUBEQ ==> result0 == ast.SUB && result1
 //@ ensures op == ast.MULEQ ==> result0 == ast.MUL && result1
@@ -595,7 +595,7 @@ package runtime
 
 
 //@ func (*Stack).GetPattern
-//@ props C12
+//@ props C12 C01
 //@ pure
 //@ loop 1
 //@ invariant cur != nil
